@@ -7,11 +7,16 @@
    indices, per-box min/max; chk2plt.convert: per state file tasks in offset
    order, results mapped back to box order, 'state' -> 'Cell' file names).
    Compared byte for byte with the converted level directories on every run;
+   PROVED for every layout of the state boxes: the scan of a state file
+   (C17_scan) and the mapping of the per-file results back to box order, the
+   written level being a well-formed level in the state files' layout
+   (C17_level_any_layout).
    the text headers (checkpoint Header parse, grid sizes, dx = domain / grid,
    box bounds, Header / Cell_H writers) are checked at property level by the
    independent reader and taste with box coordinates (not modelled: partial). *)
-From AK Require Import Base.Prelude Bytes.Text Bytes.FabHeader Bytes.BinFile
-  Reader.Select Reader.BoxRead Reader.Level Writers.Chef Writers.ChefProofs Writers.Chk2plt Writers.Chk2pltProofs.
+From AK Require Import Base.Prelude Bytes.Text Bytes.FabHeader Bytes.BinFile Bytes.Word
+  Reader.Select Reader.BoxRead Reader.Level Reader.ReadSpec Plotfile.Abstract Taste.CompleteProofs
+  Writers.Chef Writers.ChefProofs Writers.Chk2plt Writers.Chk2pltProofs Writers.ScatterProofs Writers.Chk2pltLevelProofs.
 
 (* Ghost stripping keeps exactly the interior: for every ghost width >= 1 in
    each direction (they may differ), every component c and every interior cell
@@ -43,3 +48,120 @@ Example C17_example :
   let data := concat (map w (map Z.of_nat (seq 0 72))) in
   strip_ghosts 4 3 3 1 1 1 2 data = [w 17 ++ w 18; w 53 ++ w 54].
 Proof. vm_compute. reflexivity. Qed.
+
+(* The scan of a state file holding ANY list of well-formed boxes converts every
+   box, in file order, with the job (index range, gradp / I_R location) handed
+   over for that position, and stops at end of file: the output file is the image
+   of the converted boxes; the records are their offsets and the minima / maxima
+   of exactly the components written.  box_comps is one box's conversion (ghost
+   stripping - C17_interior -, flooring table, gradp and I_R components read at
+   their recorded place). *)
+Theorem C17_scan : forall gradp_files ir_files do_gradp do_ir floored y_start nspecies
+    (sfs : list fab) (jobs : list job) (compss : list (list bytes)) fuel pre out0,
+  Forall2 (fun sfb jc => fab_ok sfb = true /\
+                         box_comps gradp_files ir_files do_gradp do_ir floored y_start nspecies
+                                   (fab_nc sfb) (fab_shape sfb) (fab_data sfb) (fst jc) = Some (snd jc))
+          sfs (combine jobs compss) ->
+  length jobs = length sfs -> length compss = length sfs -> (length sfs < fuel)%nat ->
+  let outs := map (fun jc => conv_fab (fst jc) (snd jc)) (combine jobs compss) in
+  chk_scan gradp_files ir_files do_gradp do_ir floored y_start nspecies fuel (pre ++ encode_file sfs) (blen pre) jobs out0
+  = Some (out0 ++ encode_file outs,
+          map (fun kjc => (blen out0 + fab_offset outs (fst kjc), map comp_min (snd (snd kjc)), map comp_max (snd (snd kjc))))
+              (combine (seq 0 (length sfs)) (combine jobs compss))).
+Proof. exact chk_scan_spec. Qed.
+Print Assumptions C17_scan.
+
+(* One level, ANY layout of the state boxes (any box -> file distribution, any
+   on-disk order; the gradp and I_R boxes lie wherever their own tables say):
+   chk2plt.convert's per-state-file tasks and the mapping of their results back
+   to box order write the converted boxes in the state files' layout under the
+   'state' -> 'Cell' names, record for every box i, IN BOX ORDER, the (file,
+   offset) of converted box i and the minima / maxima of ITS components - never
+   another box's -, and the written level is a well-formed level: by the reader
+   theorems (C01) box i of it reads back as converted box i.
+   Hypotheses: each box converts (box_comps, the per-box step), the renamed file
+   names stay distinct, each converted box is a well-formed FAB. *)
+Theorem C17_level_any_layout : forall gradp_files ir_files gradp_cells ir_cells do_gradp do_ir floored y_start nspecies
+    slv boxes comps_of,
+  wf_level slv = true -> length boxes = length (lv_fabs slv) ->
+  let n := length (lv_fabs slv) in
+  let sf := fun i => nth i (lv_fabs slv) dummy_fab in
+  (forall i, (i < n)%nat ->
+     box_comps gradp_files ir_files do_gradp do_ir floored y_start nspecies
+               (fab_nc (sf i)) (fab_shape (sf i)) (fab_data (sf i)) (jobi gradp_cells ir_cells boxes i) = Some (comps_of i)) ->
+  NoDup (map (fun nf : bytes * list nat => cell_name (fst nf)) (lv_files slv)) ->
+  (forall i, (i < n)%nat -> fab_ok (conv_i gradp_cells ir_cells boxes comps_of i) = true) ->
+  let out := conv_lv gradp_cells ir_cells slv boxes comps_of in
+  convert_level boxes (lv_disk slv) (cells_or_nil slv) gradp_files gradp_cells ir_files ir_cells do_gradp do_ir floored y_start nspecies
+  = Some (map (fun name => (cell_name name, encode_file (file_fabs out (ids_of slv name)))) (np_unique (map fst (cells_or_nil slv))),
+          cells_or_nil out,
+          map (fun i => map comp_min (comps_of i)) (seq 0 n),
+          map (fun i => map comp_max (comps_of i)) (seq 0 n))
+  /\ wf_level out = true.
+Proof.
+  intros gf irf gc ic dg di fl ys ns slv boxes comps_of Hwf Hb n sf Hconv Hnames Hok out.
+  exact (convert_level_layout gf irf gc ic dg di fl ys ns slv Hwf boxes Hb comps_of Hconv Hnames Hok).
+Qed.
+Print Assumptions C17_level_any_layout.
+
+(* The state-only conversion (no gradp, no I_R, no flooring) of a level whose
+   boxes are stored with g >= 1 ghost cells on every side, ANY layout: no per-box
+   hypothesis is left - every box converts to its interior (C17_interior), each
+   converted box is a well-formed FAB, and the conclusions of
+   C17_level_any_layout hold with the stripped components. *)
+Theorem C17_level_plain : forall g slv boxes,
+  1 <= g -> wf_level slv = true -> length boxes = length (lv_fabs slv) ->
+  (forall i, (i < length (lv_fabs slv))%nat -> ghosted g (nth i (lv_fabs slv) dummy_fab) (nth i boxes ([], []))) ->
+  NoDup (map (fun nf : bytes * list nat => cell_name (fst nf)) (lv_files slv)) ->
+  let n := length (lv_fabs slv) in
+  let comps := plain_of g slv in
+  let out := conv_lv [] [] slv boxes comps in
+  convert_level boxes (lv_disk slv) (cells_or_nil slv) [] [] [] [] false false None 0 0
+  = Some (map (fun name => (cell_name name, encode_file (file_fabs out (ids_of slv name)))) (np_unique (map fst (cells_or_nil slv))),
+          cells_or_nil out,
+          map (fun i => map comp_min (comps i)) (seq 0 n),
+          map (fun i => map comp_max (comps i)) (seq 0 n))
+  /\ wf_level out = true.
+Proof. intros g slv boxes Hg Hwf Hb Hgh Hn. exact (convert_level_plain g Hg slv Hwf boxes Hb Hgh Hn). Qed.
+Print Assumptions C17_level_plain.
+
+(* non-vacuity: two 1x1x1 boxes stored with one ghost cell (3x3x3 values, 2
+   components), box 1 BEFORE box 0 in the one state file: the hypotheses of
+   C17_level_any_layout hold and the table comes out in box order *)
+Definition exw (x : Z) : bytes := [ascii_of_nat (Z.to_nat x); "000"; "000"; "000"; "000"; "000"; "000"; "000"]%char.
+Definition ex_state (base : Z) : bytes := concat (map exw (map (fun k => base + Z.of_nat k) (seq 0 54))).
+Definition ex_slv : level :=
+  {| lv_fabs := [ {| fab_lo := [-1; -1; -1]; fab_hi := [1; 1; 1]; fab_nc := 2; fab_data := ex_state 0 |};
+                  {| fab_lo := [0; -1; -1]; fab_hi := [2; 1; 1]; fab_nc := 2; fab_data := ex_state 100 |} ];
+     lv_files := [ (bs "state_D_00000", [1%nat; 0%nat]) ] |}.
+Definition ex_boxes : list (list Z * list Z) := [([0; 0; 0], [0; 0; 0]); ([1; 0; 0], [1; 0; 0])].
+Definition ex_comps (i : nat) : list bytes := match i with O => [exw 13; exw 40] | _ => [exw 113; exw 140] end.
+Example C17_level_example :
+  wf_level ex_slv = true /\
+  (forall i, (i < 2)%nat ->
+     box_comps [] [] false false None 0 0 (fab_nc (nth i (lv_fabs ex_slv) dummy_fab)) (fab_shape (nth i (lv_fabs ex_slv) dummy_fab))
+               (fab_data (nth i (lv_fabs ex_slv) dummy_fab)) (jobi [] [] ex_boxes i) = Some (ex_comps i)) /\
+  (forall i, (i < 2)%nat -> fab_ok (conv_i [] [] ex_boxes ex_comps i) = true) /\
+  option_map (fun r => (map fst (fst (fst (fst r))), map snd (snd (fst (fst r))), snd (fst r)))
+             (convert_level ex_boxes (lv_disk ex_slv) (cells_or_nil ex_slv) [] [] [] [] false false None 0 0)
+  = Some ([bs "Cell_D_00000"], [blen (encode_fab (conv_i [] [] ex_boxes ex_comps 1)); 0], [[exw 13; exw 40]; [exw 113; exw 140]]).
+Proof.
+  split; [vm_compute; reflexivity|]. split.
+  - intros [|[|i]] Hi; [vm_compute; reflexivity | vm_compute; reflexivity | exfalso; inversion Hi as [|? H1]; inversion H1 as [|? H2]; inversion H2].
+  - split.
+    + intros [|[|i]] Hi; [vm_compute; reflexivity | vm_compute; reflexivity | exfalso; inversion Hi as [|? H1]; inversion H1 as [|? H2]; inversion H2].
+    + vm_compute. reflexivity.
+Qed.
+
+(* ... and the same level meets the hypotheses of C17_level_plain with g = 1 *)
+Example C17_plain_example :
+  (forall i, (i < length (lv_fabs ex_slv))%nat -> ghosted 1 (nth i (lv_fabs ex_slv) dummy_fab) (nth i ex_boxes ([], []))) /\
+  NoDup (map (fun nf : bytes * list nat => cell_name (fst nf)) (lv_files ex_slv)) /\
+  plain_of 1 ex_slv 0%nat = ex_comps 0 /\ plain_of 1 ex_slv 1%nat = ex_comps 1.
+Proof.
+  split.
+  - intros [|[|i]] Hi; [| | exfalso; cbn in Hi; lia].
+    + exists 0, 0, 0, 0, 0, 0. cbn. repeat split; lia.
+    + exists 1, 0, 0, 1, 0, 0. cbn. repeat split; lia.
+  - split; [vm_compute; repeat constructor; intros []|]. split; vm_compute; reflexivity.
+Qed.
